@@ -225,8 +225,13 @@ def run(ctx):
                     par, dpar = 0.5, 0.5
                 elif kind == "gvar":
                     par, dpar = (0.5, 2.0), (0.5, 2.0)
-                else:
+                elif rng.random() < 0.5:
                     par, dpar = (0.0, 2.0), (0.0, 2.0)
+                else:
+                    Lm = np.tril(np.asarray([[rng.randint(-3, 3) / 4.0 for _ in range(p)] for _ in range(p)])) + np.eye(p) * 1.5
+                    covm = Lm @ Lm.T
+                    mvec = np.asarray([rng.randint(-8, 8) / 8.0 for _ in range(p)])
+                    par, dpar = (mvec, covm), (mvec, covm)
                 inp = dict(inp0, cost=kind, cut=[s, e], baseline=str(par))
                 try:
                     gs = Saving(K(par)).fit(X).evaluate(np.asarray([[s, e]]))[0]
@@ -241,6 +246,36 @@ def run(ctx):
                 if not floor_hit and np.any(gs < -1e-7 * scale):
                     ctx.violation(f"{kind}: the optimal-parameter cost exceeds the cost at the fixed parameter {par} on {[s, e]}: saving {gs.tolist()}", inp,
                                   {"what": "optim-le-fixed", "cost": kind})
+        # ---- the same adapter instances refitted on a second series: values must be those of the series fitted LAST ----
+        X2 = np.asarray([[rng.randint(-64, 64) / 8.0 for _ in range(p)] for _ in range(n)])
+        scale2 = float(np.sum(X2 ** 2)) + n * 40 + 1
+        for kind, K, ms in costs[:2]:
+            if n < 3 * ms + 2:
+                continue
+            cs_r, las_r, sv_r = ChangeScore(K()), LocalAnomalyScore(K()), Saving(K(0.5 if kind == "l2" else (0.5, 2.0)))
+            s = rng.randint(0, n - 3 * ms - 1)
+            e = rng.randint(s + 3 * ms + 1, n)
+            k = rng.randint(s + ms, e - ms)
+            a = rng.randint(s + 1, e - ms - 1)
+            b = rng.randint(a + ms, e - 1)
+            cut3, cut4, cut2 = np.asarray([[s, k, e]]), np.asarray([[s, a, b, e]]), np.asarray([[s, e]])
+            ok4 = (a - s) + (e - b) >= ms
+            for obj in (cs_r, las_r, sv_r):
+                obj.fit(X)
+            cs_r.evaluate(cut3), sv_r.evaluate(cut2)
+            if ok4:
+                las_r.evaluate(cut4)
+            for obj in (cs_r, las_r, sv_r):
+                obj.fit(X2)
+            got = [cs_r.evaluate(cut3)[0], sv_r.evaluate(cut2)[0]] + ([las_r.evaluate(cut4)[0]] if ok4 else [])
+            want = [direct.change_direct(kind, X2, s, k, e), direct.saving_direct(kind, 0.5 if kind == "l2" else (0.5, 2.0), X2, s, e)] + \
+                   ([direct.local_direct(kind, X2, s, a, b, e)] if ok4 else [])
+            ctx.case({"refit": kind, "X": X.tolist(), "X2": X2.tolist(), "cut": [s, a, b, k, e]}, nontrivial=True)
+            for nm, g, w in zip(("ChangeScore", "Saving", "LocalAnomalyScore"), got, want):
+                if not direct.close(g, w, scale=scale2):
+                    ctx.violation(f"{nm}({kind}) refitted on a second series returns {np.asarray(g).tolist()}, the definition on the series fitted last gives "
+                                  f"{np.asarray(w).tolist()}", dict(inp0, X2=X2.tolist(), cost=kind, cuts=[[s, k, e], [s, e], [s, a, b, e]]),
+                                  {"what": "refit", "adapter": nm, "cost": kind})
         # L2Saving vs Saving(L2Cost(0)) and the exact twin of l2_saving
         for _ in range(3):
             s = rng.randint(0, n - 1)
